@@ -19,7 +19,7 @@ from harness.translate import c09_registry, c09_values
 
 PROP_ID = "C09"
 COQ_PROPS = "theories/Props/C09.v"
-COQ_EXTRA = ["gen/C09_gen.v"]
+COQ_EXTRA = ["gen/C09_gen.v", "gen/C09_quant_gen.v"]
 EXTRACT = ("theories/Extract/ExC09.v", "c09_driver.ml")
 EXTRACT_Z = True
 TRUSTED = [
@@ -47,8 +47,10 @@ MAX_REPORT = 3          # violations reported per (key, class)
 def generate(ctx):
     reg = c09_registry.load()
     obls = c09_registry.emit(reg, os.path.join(COQ, "gen", "C09_gen.v"))
+    obls += c09_registry.emit_quant(reg, os.path.join(COQ, "gen", "C09_quant_gen.v"))
     inert = [".".join(e.key) for e in reg.entries if e.inert]
-    opaque = ["%s (%s)" % (".".join(e.key), e.why_opaque) for e in reg.entries if not e.modelled and not e.inert]
+    opaque = ["%s (%s)" % (".".join(e.key), e.why_opaque) for e in reg.entries if not e.modelled and not e.inert and e.quant is None]
+    quant = [".".join(e.key) for e in c09_registry.quant_entries(reg)]
     misfit = []
     for e in reg.entries:
         if e.modelled and e.kind in ("enum", "flag"):
@@ -59,9 +61,10 @@ def generate(ctx):
                 bad = [n for n, v in e.cls.names if not 0 <= v < (1 << c09_registry.WBITS[e.ty])]
             if bad:
                 misfit.append("%s:%s members %s" % (".".join(e.key), e.ty, ",".join(bad[:4])))
-    ctx.notes.append("registry: %d keys, %d modelled and proved per key, %d inert (variable absent from the template: %s), "
-                     "%d opaque (oracle only): %s" % (len(reg.entries), sum(1 for e in reg.entries if e.modelled),
-                                                     len(inert), "; ".join(inert), len(opaque), "; ".join(opaque)))
+    ctx.notes.append("registry: %d keys, %d integer keys modelled and proved per key, %d quantised-float keys proved by exhaustive "
+                     "evaluation of the PrimFloat model (%s), %d inert (variable absent from the template: %s), "
+                     "%d opaque (oracle only): %s" % (len(reg.entries), sum(1 for e in reg.entries if e.modelled), len(quant),
+                                                     "; ".join(quant), len(inert), "; ".join(inert), len(opaque), "; ".join(opaque)))
     if misfit:
         ctx.notes.append("informational, not a violation of C09: member values the variable's wire type cannot hold "
                          "(those names can be written but never read back): " + "; ".join(misfit))
@@ -347,6 +350,8 @@ def corr_ints(ctx, reg):
     def bump(k, n=1):
         dist[k] = dist.get(k, 0) + n
 
+    seen_adapters = set()
+
     for e in reg.entries:
         if e.inert or e.ty is None:
             continue
@@ -358,7 +363,11 @@ def corr_ints(ctx, reg):
                 continue                                    # time-zone dependent: own suite
             # opaque integer key (quantised float): integer clause on the implementation only
             block = make_block(e.key, {})
-            for z in int_sweep(ctx, e.ty):
+            zs_op = int_sweep(ctx, e.ty)
+            if not ctx.thorough and id(a) in seen_adapters and len(zs_op) > 4096:
+                zs_op = zs_op[::32] + zs_op[-8:]          # same adapter object already swept exhaustively under another key
+            seen_adapters.add(id(a))
+            for z in zs_op:
                 for pod in (False, True):
                     impl_only += 1
                     bad = check_int(ser, block, z, pod)
